@@ -499,6 +499,36 @@ def coq_dump_lex(ctx, t):
 # main
 # ---------------------------------------------------------------------------
 
+def near_miss_texts():
+    """texts that put two spellings of ONE setting (or the same directive twice) into one block.  The parser of the pinned tree refuses
+    most of them - a text that does not parse is outside the property - but whatever a tree under check accepts must keep its meaning
+    under fmt like any other text: a parser that starts to accept one of these needs a formatter that writes both parts back."""
+    head = 'ingress {\n  listen ":8080"\n}\npull_api {\n  listen ":9443"\n  auth token "raw:t"\n}\n'
+    pub = ["publish off", "publish on", "publish {\n    enabled off\n  }", "publish {\n    enabled off\n    direct on\n  }", "publish {\n    direct off\n  }",
+           "publish.direct on", "publish.direct off", "publish.managed off", "publish.managed on"]
+    route_snips = [(a, b) for a in pub for b in pub if a != b or a.startswith("publish.")]
+    route_snips += [('queue sqlite', 'queue {\n    backend sqlite\n  }'), ('max_body 1kb', 'max_body 2kb'), ('max_headers 1kb', 'max_headers 2kb'),
+                    ('rate_limit {\n    rps 5\n  }', 'rate_limit {\n    rps 7\n    burst 2\n  }'),
+                    ('auth basic "u" "p"', 'auth hmac {\n    secret "raw:k"\n  }'), ('deliver_concurrency 2', 'deliver_concurrency 3'),
+                    ('application "a1"\n  endpoint_name "e1"', 'application "a2"')]
+    out = []
+    for k, (a, b) in enumerate(route_snips):
+        for wrap in ("", "internal"):
+            body = '"/r%d" {\n  %s\n  %s\n  pull { path "/p%d" }\n}\n' % (k, a, b, k)
+            if wrap:
+                body = "internal {\n%s}\n" % body
+            out.append(("nearmiss:route:%d:%s" % (k, wrap or "bare"), (head + body + '"/other" {\n  pull { path "/o" }\n}\n').encode()))
+    top = [('defaults {\n  max_body 1kb\n}\n', 'defaults {\n  max_headers 1kb\n}\n'),
+           ('queue_limits {\n  max_depth 5\n}\n', 'queue_limits {\n  drop_policy drop_oldest\n}\n'),
+           ('observability {\n  access_log off\n}\n', 'observability {\n  access_log {\n    enabled on\n  }\n}\n'),
+           ('defaults {\n  publish_policy {\n    direct off\n  }\n  publish_policy {\n    managed off\n  }\n}\n', ''),
+           ('defaults {\n  deliver {\n    timeout 5s\n  }\n  deliver {\n    concurrency 3\n  }\n}\n', ''),
+           ('defaults {\n  egress {\n    https_only off\n  }\n  egress {\n    redirects on\n  }\n}\n', '')]
+    for k, (a, b) in enumerate(top):
+        out.append(("nearmiss:top:%d" % k, (head + a + b + '"/x" {\n  pull { path "/px" }\n}\n').encode()))
+    return out
+
+
 def main(ctx, replay):
     rng = random.Random(ctx.seed)
     info = C.prologue(ctx)
@@ -558,6 +588,7 @@ def main(ctx, replay):
         text = hkgen.render(items, rng)
         gens.append((items, text, g.wild))
     corpus = corpus_candidates(C.REPO)
+    corpus += near_miss_texts()
     # single LINES of 60 000 to 300 000 bytes (an inline certificate bundle in vars, a long raw: secret, a long comment): longer than any
     # default line buffer; judged on the implementation (the lexer model is not run on them: 'long' origin)
     longs = []
